@@ -83,6 +83,7 @@ def run(A, R: Report, thorough: bool):
     R.rule('R15.1', 'every save_value call is inside a `with <FileLock of the cache file>` region', floor=1)
     R.rule('R15.2', 'a load_value guarded by an existence test holds the key lock (writers truncate in place under that lock)', floor=2)
     R.rule('R15.3', 'all entry points lock the same function of the cache file path', floor=2)
+    R.rule('R15.8', 'whether an entry is stored is decided while holding the key lock (the answer of an earlier moment is not used after waiting for the lock)', floor=2)
     R.rule('R15.4', 'the key lock is a blocking, per-thread, OS-level FileLock (no shared re-entrant instance, no bounded or non-blocking acquisition)', floor=0)
     lock_terms = {}
     for f, ci in eps:
@@ -93,6 +94,20 @@ def run(A, R: Report, thorough: bool):
             R.undecided('R15.1', f.short, 'explicit acquire()/release(): lock regions not tracked', where=where(f))
             continue
         cfg = A.cfg(f)
+        for n, _owner, sites in A.nodes_with_sites(f):
+            if not (isinstance(n, ast.Call) and isinstance(n.func, ast.Attribute) and isinstance(n.func.value, ast.Name) and n.func.value.id == 'self'):
+                continue
+            held = [w for w in held_withs(n, sites) if w in lw]
+            pass
+        for n, _owner, sites in A.nodes_with_sites(f):
+            # R15.8: the presence test of the entry is made under the lock
+            if isinstance(n, ast.Call) and isinstance(n.func, ast.Attribute) and n.func.attr in ('exists', 'is_file') and not n.args:
+                recv = subst_single_assign(A, _owner, n.func.value)
+                if isinstance(recv, ast.Call) and src(recv.func) == 'self.filepath':
+                    held8 = [w for w in held_withs(n, sites) if w in lw]
+                    R.check(bool(held8), 'R15.8', f'{f.short}: `{src(n)[:40]}`', key_of('presence-outside-lock', f.short), 'presence of the entry is tested while holding the key lock',
+                            'whether the entry is stored is decided before the key lock is taken: a caller that waits for the lock while another caller computes and stores the value still believes the entry is missing - '
+                            'it computes again and overwrites an intact entry (or reports NO_VALUE for an entry that is complete by the time it holds the lock)', where=where(f, n))
         for n, _owner, sites in A.nodes_with_sites(f):
             if not (isinstance(n, ast.Call) and isinstance(n.func, ast.Attribute) and isinstance(n.func.value, ast.Name) and n.func.value.id == 'self'):
                 continue
